@@ -4,6 +4,7 @@ package oracle
 import (
 	"fmt"
 	"math"
+	"reflect"
 	"runtime"
 	"strings"
 
@@ -235,7 +236,7 @@ func Snapshot(m modeling.Mesh) string {
 		if mm.Material == nil {
 			fmt.Fprintf(&sb, "(%d,nil)", mm.PrimitiveCount)
 		} else {
-			fmt.Fprintf(&sb, "(%d,%p,%+v)", mm.PrimitiveCount, mm.Material, *mm.Material) // the pointed-to material too
+			fmt.Fprintf(&sb, "(%d,%p,%s)", mm.PrimitiveCount, mm.Material, deepMaterial(mm.Material)) // the pointed-to material too, two levels deep
 		}
 	}
 	fmt.Fprintf(&sb, ";names=%v|%v|%v|%v;", m.Float1Attributes(), m.Float2Attributes(), m.Float3Attributes(), m.Float4Attributes())
@@ -269,6 +270,26 @@ func Snapshot(m modeling.Mesh) string {
 			x := it.At(i)
 			sb.WriteString(Bits(x.X()) + Bits(x.Y()) + Bits(x.Z()) + Bits(x.W()) + ",")
 		}
+	}
+	return sb.String()
+}
+
+// deepMaterial prints every field of a material; pointer fields (texture URIs) by what they point to.
+func deepMaterial(m *modeling.Material) string {
+	v := reflect.ValueOf(*m)
+	var sb strings.Builder
+	for i := 0; i < v.NumField(); i++ {
+		f := v.Field(i)
+		fmt.Fprintf(&sb, "%s=", v.Type().Field(i).Name)
+		if f.Kind() == reflect.Pointer {
+			if f.IsNil() {
+				sb.WriteString("nil;")
+			} else {
+				fmt.Fprintf(&sb, "&%#v;", f.Elem().Interface())
+			}
+			continue
+		}
+		fmt.Fprintf(&sb, "%#v;", f.Interface())
 	}
 	return sb.String()
 }
